@@ -25,6 +25,8 @@ type format struct {
 	newVisitor      func(w io.Writer, cfg int) (structform.Visitor, func() int)
 	newParser       func(vs structform.Visitor) parserI
 	parseReader     func(in io.Reader, vs structform.Visitor) (int64, error)
+	pkgParse        func(b []byte, vs structform.Visitor) error // the package-level Parse
+	pkgParseString  func(s string, vs structform.Visitor) error // the package-level ParseString
 	newDecoder      func(in io.Reader, buf int, vs structform.Visitor) decoderI
 	newBytesDecoder func(b []byte, vs structform.Visitor) decoderI
 	genDoc          func(r *rng) []byte // any document: valid, unsupported, truncated, mutated, random
@@ -145,6 +147,10 @@ func (f *format) parseRun(mode string, vfail int, chunks [][]byte) string {
 			p := f.newParser(refRecorder{rec})
 			err = p.ParseString(string(doc))
 			depths = p.depths()
+		case "G":
+			err = f.pkgParse(doc[:len(doc):len(doc)], refRecorder{rec})
+		case "T":
+			err = f.pkgParseString(string(doc), refRecorder{rec})
 		case "W":
 			p := f.newParser(refRecorder{rec})
 			for _, c := range chunks {
@@ -205,11 +211,11 @@ func (f *format) parseRun(mode string, vfail int, chunks [][]byte) string {
 func (f *format) parseCase(r *rng) string {
 	doc := f.genDoc(r)
 	chunks := r.chunking(doc)
-	mode := []string{"P", "W", "W", "W", "R", "S", "E", "X"}[r.n(8)]
+	mode := []string{"P", "W", "W", "W", "R", "S", "E", "X", "G", "T"}[r.n(10)]
 	if mode == "X" && f.name == "json" {
 		mode = "W" // json's Parse starts a new document
 	}
-	if mode == "P" || mode == "S" {
+	if mode == "P" || mode == "S" || mode == "G" || mode == "T" {
 		chunks = [][]byte{doc}
 	}
 	vfail := -1
